@@ -536,7 +536,7 @@ var calleeAlt = map[string][]string{
 }
 
 // MutationKinds is the behaviour-changing catalogue implemented on the AST.
-var MutationKinds = []string{"op-swap", "operand-swap", "cmp-negate-no-branch-swap", "then-else-exchange", "callee-swap", "index-edit", "loop-edit", "small-const", "literal-only", "stmt-add", "stmt-remove", "stmt-reorder", "cond-to-const"}
+var MutationKinds = []string{"op-swap", "operand-swap", "cmp-negate-no-branch-swap", "then-else-exchange", "callee-swap", "index-edit", "loop-edit", "small-const", "literal-only", "stmt-add", "stmt-remove", "stmt-duplicate", "dup-remove", "stmt-reorder", "cond-to-const"}
 
 func (p *Parsed) mutationSites(r *rand.Rand, gi int) []site {
 	var sites []site
@@ -676,6 +676,27 @@ func (p *Parsed) mutationSites(r *rand.Rand, gi int) []site {
 					st := &ast.ExprStmt{X: &ast.CallExpr{Fun: ast.NewIdent("trace"), Args: []ast.Expr{&ast.BasicLit{Kind: token.INT, Value: "7"}}}}
 					x.List = append(x.List[:pos:pos], append([]ast.Stmt{st}, x.List[pos:]...)...)
 				})
+			}
+			if len(x.List) >= 1 {
+				k := r.Intn(len(x.List))
+				if es, ok := x.List[k].(*ast.ExprStmt); ok {
+					if c, ok := es.X.(*ast.CallExpr); ok && p.str(c.Fun) != "tick" {
+						add("stmt-duplicate", "non-literal", x.List[k], func() {
+							x.List = append(x.List[:k+1:k+1], append([]ast.Stmt{x.List[k]}, x.List[k+1:]...)...)
+						})
+					}
+				}
+			}
+			for k := 0; k+1 < len(x.List); k++ {
+				if _, ok := x.List[k].(*ast.ExprStmt); !ok {
+					if _, ok := x.List[k].(*ast.SendStmt); !ok {
+						continue
+					}
+				}
+				if p.str(x.List[k]) == p.str(x.List[k+1]) && p.str(x.List[k]) != "tick()" {
+					kk := k
+					add("dup-remove", "non-literal", x.List[kk], func() { x.List = append(x.List[:kk:kk], x.List[kk+1:]...) })
+				}
 			}
 			var removable []int
 			for k, s := range x.List {
